@@ -509,8 +509,8 @@ func init() {
 		n := n
 		reg(n, func(in *Interp, caller *frame, pos token.Pos, fn *ssa.Function, args []Value) Value {
 			x := term(args[0])
-			if x.IsConst() {
-				return in.tb.BV(64, math.Float64bits(f(math.Float64frombits(x.C))))
+			if u, ok := in.uniqueValue(x); ok {
+				return in.tb.BV(64, math.Float64bits(f(math.Float64frombits(u.C))))
 			}
 			in.noteUsed("uninterpreted " + n)
 			return in.tb.UF("uf_"+strings.ReplaceAll(n, ".", "_"), 64, x)
@@ -522,11 +522,39 @@ func init() {
 		n := n
 		reg(n, func(in *Interp, caller *frame, pos token.Pos, fn *ssa.Function, args []Value) Value {
 			x, y := term(args[0]), term(args[1])
-			if x.IsConst() && y.IsConst() {
-				return in.tb.BV(64, math.Float64bits(f(math.Float64frombits(x.C), math.Float64frombits(y.C))))
+			if ux, ok := in.uniqueValue(x); ok {
+				if uy, ok := in.uniqueValue(y); ok {
+					return in.tb.BV(64, math.Float64bits(f(math.Float64frombits(ux.C), math.Float64frombits(uy.C))))
+				}
 			}
 			in.noteUsed("uninterpreted " + n)
 			return in.tb.UF("uf_"+strings.ReplaceAll(n, ".", "_"), 64, x, y)
+		})
+	}
+	// math.Min / math.Max: exact on forced-constant arguments; otherwise the comparison form with NaN
+	// propagation (the sign of a zero result is not modelled, and noted)
+	for _, n := range []string{"math.Min", "math.Max"} {
+		n := n
+		reg(n, func(in *Interp, caller *frame, pos token.Pos, fn *ssa.Function, args []Value) Value {
+			x, y := term(args[0]), term(args[1])
+			if ux, ok := in.uniqueValue(x); ok {
+				if uy, ok := in.uniqueValue(y); ok {
+					a, b := math.Float64frombits(ux.C), math.Float64frombits(uy.C)
+					if n == "math.Min" {
+						return in.tb.BV(64, math.Float64bits(math.Min(a, b)))
+					}
+					return in.tb.BV(64, math.Float64bits(math.Max(a, b)))
+				}
+			}
+			in.noteUsed(n + " by comparison (sign of zero not modelled)")
+			var pick *smt.Term
+			if n == "math.Min" {
+				pick = in.tb.Ite(in.tb.FCmp(smt.OpFLt, x, y), x, y)
+			} else {
+				pick = in.tb.Ite(in.tb.FCmp(smt.OpFLt, y, x), x, y)
+			}
+			nan := in.tb.BV(64, math.Float64bits(math.NaN()))
+			return in.tb.Ite(in.tb.Or(in.tb.FIsNaN(x), in.tb.FIsNaN(y)), nan, pick)
 		})
 	}
 	reg("math/bits.OnesCount64", func(in *Interp, caller *frame, pos token.Pos, fn *ssa.Function, args []Value) Value {
